@@ -269,13 +269,18 @@ def install(E, bb):
                 raise I.Unsupported('computed attribute of an instance of undetermined class (specification)')
             if not E.path.branch(c > I.SYM_CLASS_BASE, 'generated-class-instance'):
                 raise I.Unsupported('getattr with computed name on an instance of a class of the tree')
+        if slot_shaped(n):
+            r = z3.Select(z3.Select(dyn_heap(E.path), oid), n)
+            return absent_or(r, default, 'attribute')
         a = ClassAttr(c, n)
         note_name(n)
         slot_axiom(c, n)
         isd = z3.simplify(is_descriptor(a))
         if slot_shaped(n):
+            # a storage slot: the instance value or nothing (the class-level entry of
+            # that name is the slot descriptor itself, never a value)
             r = z3.Select(z3.Select(dyn_heap(E.path), oid), n)
-            return absent_or(z3.If(r == Val.VAbsent, a, r), default, 'attribute')
+            return absent_or(r, default, 'attribute')
         if E.merge:
             if E.must(isd):
                 return descriptor_get_guard(a, obj, c, default)
